@@ -33,7 +33,7 @@ import copy
 
 from .. import filevalues as fv
 from ..core import Ctx, MachineryError
-from ..tlc import expect_clean, expect_violation, run_tlc
+from ..tlc import expect_clean, run_tlc
 
 META = {
     "level": "model_checking",
@@ -75,33 +75,32 @@ def model_check(ctx: Ctx) -> None:
     if ctx.quick:
         plan = [("as-built", U_FULL, [2, 3], 3), ("as-built", U_TWO_DIRS, [2], 4), ("repaired", U_FULL, [2, 3], 3)]
     else:
-        plan = [("as-built", U_ONE_DIR, [1, 2, 3], 5), ("as-built", U_TWO_DIRS, [1, 2, 3], 5),
-                ("as-built", U_FULL, [1, 2, 3], 4), ("repaired", U_ONE_DIR, [1, 2, 3], 5),
-                ("repaired", U_TWO_DIRS, [1, 2, 3], 4)]
+        plan = [("as-built", U_ONE_DIR, [1, 2, 3], 5), ("as-built", U_TWO_DIRS, [2, 3], 5),
+                ("as-built", U_FULL, [2], 4), ("repaired", U_ONE_DIR, [1, 2, 3], 4),
+                ("repaired", U_TWO_DIRS, [2, 3], 4)]
     runs = []
+    witnesses: set = set()
     for kind, u, bts, depth in plan:
         ab = kind == "as-built"
         # as built: the invariants hold unless a named deviation fired; repaired: strictly
         cfg = fv.cfg_text("SpecOps", **u, **common, bytes_=bts, max_ops=depth, dev_cm=ab, dev_dc=ab,
-                          invariants=UNLESS if ab else STRICT + ["HashLaws"], properties=["ContentBytesOnly"])
+                          invariants=(UNLESS + ["Witness"]) if ab else STRICT + ["HashLaws"],
+                          properties=["ContentBytesOnly"])
         what = f"{kind} dirs={u['dirs']} names={u['names']} bytes={bts} ops<={depth}"
-        res = expect_clean(run_tlc("seq/FileValues.tla", cfg, ctx.scratch, timeout=2400, heap="8g"),
+        res = expect_clean(run_tlc("seq/FileValues.tla", cfg, ctx.scratch, workers=8, timeout=2400, heap="8g"),
                            f"FileValues.tla {what}")
         ctx.add_tlc(res)
+        if ab:
+            witnesses |= set(res.recs("WITNESS"))
+        else:
+            ctx.require(not res.recs("WITNESS"), "the repaired model printed a control witness")
         runs.append(f"{what}: {res.distinct} states, {res.generated} transitions")
     ctx.note("model_runs", runs)
-    # model-level controls: a strict invariant fails as soon as its deviation is switched on (that it
-    # fails through no other one is what the Unless-invariants of the as-built runs establish)
-    small = dict(bytes_=[2], mtimes=[1], max_objs=2, max_ops=4)
-    for inv, dev_cm, dev_dc, classes, u in (
-            ("ValidIff", True, False, ["ContentFile"], U_ONE_DIR),
-            ("FreshAfterOp", False, True, ["Dir"], U_TWO_DIRS)):
-        cfg = fv.cfg_text("SpecOps", **u, **small, classes=classes, dev_cm=dev_cm, dev_dc=dev_dc,
-                          invariants=[inv] + (["HashTotal"] if dev_cm else []))
-        res = expect_violation(run_tlc("seq/FileValues.tla", cfg, ctx.scratch, workers=2, timeout=600),
-                               "HashTotal" if dev_cm else inv,
-                               f"control: {inv} must fail with only its deviation switched on")
-        ctx.add_tlc(res)
+    # model-level controls: in the as-built model TLC reaches states in which the strict invariants
+    # are false (printed by Witness), each through its named deviation; the Unless-invariants of the
+    # same runs show that they fail through nothing else, the repaired runs that they hold strictly
+    for w in ("FreshAfterOp dir-copy-stale", "ValidIff content-missing", "HashTotal content-missing"):
+        ctx.negative_control(w in witnesses, f"model control: strict invariant fails in the as-built model ({w})")
 
 
 def replay_all(ctx: Ctx, rep: fv.Reporter, behs: list, u: dict, source: str, stats: dict) -> None:
